@@ -42,6 +42,7 @@ Profile GetProfile(const std::string& name, bool thorough) {
     p.w_manifest_edit = 1; p.pm_tty = 150;
     p.subset_then_touch = true;
     p.generator_restats_log = true;
+    if (name == "C04") p.prune_empty_dirs = true;
   } else if (name == "C05") {
     p.pm_cmd_fail = 220; p.pm_cmd_signal = 60; p.w_edit = 4; p.pm_io_error = 0;
     p.w_missing_source = 2; p.gen.features |= F_VALIDATION;
